@@ -55,7 +55,7 @@ class C07(Prop):
         self.parse, self.parser_utils = parse, parser_utils
 
     def gen(self, r, i, run):
-        f = defgen.gen_def(r)
+        f = defgen.gen_def(r, containers=True)
         form = r.choice(["function", "function", "class_init"])
         if form == "class_init":
             f["method"] = True
@@ -124,6 +124,8 @@ class C07(Prop):
         for t, o, out in rec:
             inter = [k for k, _ in o if k in {x for x, _ in t}]
             r.shuffle(inter)
+            if any((p.get("default") or {}).get("t") == "other" for _, p in t + o):
+                continue  # (a container default has no counterpart in the model's value grammar)
             op = {"op": "ir_merge", "target": t, "other": o, "sigma": inter}
             res.append(("ir_merge", op, {"ok": [[k, canon_param(p)] for k, p in out]}))
         return res
@@ -243,6 +245,8 @@ class C07(Prop):
             e = [d for d in f["doc"] if d["name"] == fl.get("name")]
             if p and e and (p[0]["default"] or "").startswith("-") and "str" in (e[0].get("typ") or ""):
                 return "C07-negative-default-under-a-documented-str-type-left-as-ast"
+            if p and (p[0]["default"] or "")[:1] in ("[", "(", "{"):
+                return "C07-container-default-left-as-ast-node"
         return None
 
 
